@@ -39,12 +39,17 @@ def correspond(ctx):
                 "enums, lists, dicts, optionals, nested configurations) + configuration graph (<= ~14 nodes: sharing, cycles, meta flags None/True/False, "
                 "pre-tasks, init tasks, task outputs, tags) + entry points (__json__/fromParameters always; state_dict/from_state_dict on a list/dict structure "
                 "of nodes, save/load, params.json -> run() with probability 1/2 each; thorough: real job processes); non-trivial = at least one nested "
-                "configuration reference; distinct = hash of (library, graph, entry points)")
+                "configuration reference; distinct = hash of (library, graph, entry points); kind `hist` = submission history on one workspace: a task-rooted acyclic "
+                "graph (<= 16 nodes) then 1-3 further submissions, each a neutral edit of the previous one (Meta/Option value, path, meta member, content of a meta "
+                "sub-configuration, tag: same job folder) or unchanged, every step either GENERATE_ONLY, a real run on a machine that lacks resources (the body "
+                "fails after echoing), or a real run; same or other experiment name")
     ctx.assumptions += [
         "dict keys are strings other than \"type\" (F9 is replayed as a witness only); ints within int64; text is valid UTF-8",
         "enum values are identified by module.qualname:name; `is_folder` of a serialised data path is not compared",
         "argument validation on load is the identity on values that were validated when first set (exercised, not proved)",
         "SHA-256 itself is not verified (identifier bytes of model and implementation are compared)",
+        "histories: a job that is already done is not run again and nothing is demanded of its folder; the task link a submitted task has to itself is not compared; "
+        "a relative DataPath is compared as the file it denotes in the job folder",
         "a class is identified by (package module, qualified name) or, outside a package, by (defining file, qualified name): the module name under which a file is registered is not part of the identity",
     ]
     # submission histories on one workspace: real scheduler, real job processes, state surviving in the job folder
@@ -185,7 +190,7 @@ def run_hist(ctx, libs, cases, shards=8):
     return identlib.run_cases(ctx, libs, cases, shards=shards, module=HIST_WORKER)[None]
 
 
-# FINDING ON THE UNCHANGED TREE (C12-N4, reported, not yet fixed in /repo): `from_task_dir(job.path)` raises
+# FINDING ON THE UNCHANGED TREE (proposed id C12-N4; reported, not yet fixed in /repo): `from_task_dir(job.path)` raises
 # RuntimeError("No serialization path was given") for every task that holds a DataPath value — it builds the data loader
 # of the folder but calls `from_state_dict(content, as_instance=…)` without it (same slip as C12-N2 in `load`).
 # Stand-alone reproduction: harness/xv/impl/c12x_hand_from_task_dir.py.  The monitor is NOT weakened: set this constant to
